@@ -123,6 +123,23 @@ Fixpoint pnodupb (l : list pos) : bool :=
 Definition doc_positions_ok (D : document) : bool :=
   pnodupb (map ss_pos (h_all_subs D)) && pnodupb (h_field_positions D).
 
+(** field types have no non-null directly inside a non-null (NewNonNullType of a non-null type is
+    not a type schema.New accepts) *)
+Fixpoint wf_styb (t : sty) : bool :=
+  match t with
+  | StNamed _ => true
+  | StList t' => wf_styb t'
+  | StNonNull t' => match t' with StNonNull _ => false | _ => wf_styb t' end
+  end.
+Definition fields_types_wf (fs : list (name * field_def)) : bool := forallb (fun nf => wf_styb (f_type (snd nf))) fs.
+Definition schema_types_wf (S : schema) : bool :=
+  forallb (fun nt => match t_body (snd nt) with
+                     | TObject fs _ => fields_types_wf fs
+                     | TInterface fs => fields_types_wf fs
+                     | _ => true
+                     end) (s_types S)
+  && fields_types_wf (s_meta S).
+
 (** every field selection of the document has a definition (5.3.1 holds and every selection set has
     a known parent type) *)
 Definition fields_defined (S : schema) (F : features) (D : document) : bool :=
